@@ -24,7 +24,23 @@ package functions
 //@ func top
 //@   requires collection != nil
 //@   loop 1 invariant first || h != nil
-//@   loop 2 invariant h != nil
+//@   loop 1 invariant implies(h != nil, ghostf("hlen", h) >= 0)
+//@   loop 2 invariant h != nil && ghostf("hlen", h) >= 0 && j >= 0
+//@   loop 2 invariant len(r.Keys) == len(r.Values) && j + ghostf("hlen", h) == len(r.Keys)
+
+// container/heap as top uses it (assumed): the heap has a size (ghost field "hlen") that
+// Push and Pop change by one, Len reports it, and what top's heaps hold are key/value pairs.
+//@ extern container/heap.Push
+//@   trusted
+//@   gset hlen h = old(ghostf("hlen", h)) + 1
+//@ extern container/heap.Pop
+//@   trusted
+//@   requires ghostf("hlen", h) > 0
+//@   gset hlen h = old(ghostf("hlen", h)) - 1
+//@   ensures typeis(result, api.AnyAnyPair)
+//@ extern container/heap.Interface.Len
+//@   trusted
+//@   ensures result == ghostf("hlen", self) && result >= 0 && result < 1<<40
 
 // ---- C24: join-missing ------------------------------------------------------------------
 // join-missing yields the items of base plus the items of joined whose key is missing
